@@ -9,6 +9,7 @@ import SfntV.Proofs.OtlLookupList
 import SfntV.Proofs.OtlGpos
 import SfntV.Proofs.OtlFeatureList
 import SfntV.Proofs.OtlGdef
+import SfntV.Proofs.OtlGtab
 
 namespace SfntV.Props.C08
 open SfntV SfntV.Otl
@@ -351,7 +352,7 @@ theorem C08_featurelist_roundtrip (fl : List FL.Feature) (D : FL.Dom fl) :
     ((FL.offsets fl (2 + 6 * fl.length)).getLastD 0 ≤ 0xFFFF →
       ∃ b, FL.encode fl = .ok b ∧ FL.read b = .ok fl) ∧
     ((FL.offsets fl (2 + 6 * fl.length)).getLastD 0 > 0xFFFF → ∃ s, FL.encode fl = .panic s) :=
-  ⟨FL.roundtrip fl D, FL.refusal fl⟩
+  ⟨fun h => by simpa using FL.roundtrip fl D h [], FL.refusal fl⟩
 
 example : FL.Dom [⟨[107, 101, 114, 110], [0, 2]⟩, ⟨[108, 105, 103, 97], []⟩] := ⟨by decide⟩
 example : FL.encode [⟨[107, 101, 114, 110], [0, 2]⟩, ⟨[108, 105, 103, 97], []⟩] =
@@ -382,5 +383,66 @@ theorem C08_gdef_roundtrip (gcT macT : Option ClassDef.Tab) (sets : Option (List
 example : Gdef.encode (some (Gdef.mkPart [(5, 1), (6, 3)])) none (some [[7, 8]]) =
     .ok (wordsToBytes [1, 2, 14, 0, 0, 0, 24] ++ wordsToBytes [1, 5, 2, 1, 3] ++
       wordsToBytes [1, 1, 0, 8] ++ wordsToBytes [1, 2, 7, 8]) := by decide
+
+/-! ## GSUB/GPOS table header (`Info.Encode` / `readGtab`, model of the repaired code)
+
+The three lists enter `Info.Encode` as the bytes their own encoders return (`none` for a nil list).
+Normal form of the repair: a nil list is written — and therefore read back — as the empty list. -/
+
+/-- nil ≡ empty: `Encode` writes a nil list exactly like an empty one (two zero bytes). -/
+theorem C08_gtab_nil_normal_form (sl fl ll : Option Bytes) :
+    Gtab.encode sl fl ll =
+      Gtab.encode (some (Gtab.listBytes sl)) (some (Gtab.listBytes fl)) (some (Gtab.listBytes ll)) :=
+  Gtab.encode_nil sl fl ll
+
+/-- Whenever `Encode` returns bytes for a script list `S` (any non-empty byte string: see
+`SL.encode`), a feature list `fl` and a lookup list `ll` of the respective domains, the header logic
+of the reader accepts the table and finds the three lists at the written offsets: the script list
+bytes, then the feature list — which reads back as `fl` — and the lookup list, from which the
+specification reader recovers every lookup and subtable.  (Offsets that do not fit 16 bits make
+`Encode` panic: the `if` in `Gtab.encode`.) -/
+theorem C08_gtab_roundtrip (S : Bytes) (hS : S ≠ []) (fl : List FL.Feature) (Dfl : FL.Dom fl)
+    (ll : List LL.Lookup) (Dll : LL.LLDom ll) (extT : Nat) (hTlt : extT < 65536)
+    (hT : ∀ l ∈ ll, l.type ≠ extT) (hX : LL.extLookupType ll = 0 ∨ LL.extLookupType ll = extT)
+    (hsz : LL.totalSize (LL.chunksOf ll) + 8 * (ll.map (·.subs.length)).sum < 4294967296)
+    (F L b : Bytes) (hF : FL.encode fl = .ok F) (hL : LL.encode ll = .ok L)
+    (hb : Gtab.encode (some S) (some F) (some L) = .ok b) :
+    Gtab.readHeader b = .ok (some (10, 10 + S.length, 10 + S.length + F.length)) ∧
+    b.drop 10 = S ++ F ++ L ∧
+    FL.read (b.drop (10 + S.length)) = .ok fl ∧
+    LL.Recovered (b.drop (10 + S.length + F.length)) extT ll := by
+  -- both lists are at least two bytes long
+  have hFne : F ≠ [] := by
+    intro h0
+    subst h0
+    unfold FL.encode at hF
+    simp only at hF
+    split at hF
+    · simp at hF
+    · split at hF
+      · simp at hF
+      · simp only [Outcome.ok.injEq] at hF
+        have := congrArg List.length hF
+        simp [be16] at this
+  have hrec := LL.recovered_of_encode ll Dll extT hTlt hT hX hsz L hL
+  have hLne : L ≠ [] := by
+    intro h0
+    subst h0
+    obtain ⟨sl, h1, _⟩ := hrec
+    simp [LL.specRead, LL.u16at] at h1
+  obtain ⟨h1, h2, h3, h4⟩ := Gtab.header_roundtrip S F L hS hFne hLne b hb
+  refine ⟨h1, h2, ?_, ?_⟩
+  · rw [h3]
+    -- the feature list reads back, whatever follows it
+    by_cases hfit : (FL.offsets fl (2 + 6 * fl.length)).getLastD 0 ≤ 0xFFFF
+    · obtain ⟨F', hF', hr⟩ := FL.roundtrip fl Dfl hfit L
+      rw [hF] at hF'
+      simp only [Outcome.ok.injEq] at hF'
+      subst hF'
+      exact hr
+    · obtain ⟨s, hs⟩ := FL.refusal fl (by omega)
+      rw [hs] at hF
+      simp at hF
+  · rw [h4]; exact hrec
 
 end SfntV.Props.C08
